@@ -177,13 +177,45 @@ def run_case(rng, ctx):
             bases.append(base)
     style = rng.choice(["dict", "callable", "quiver"])
     ob_map = {mod.Ty(name): t for name, t in images.items()}
+    # a "macro" box: its image is the image, under the SAME functor, of a
+    # source diagram (the box map calls the functor it belongs to)
+    macros = {}
+    if style != "dict" and bases and rng.random() < .4:
+        m = bases[rng.randrange(len(bases))]
+        # plain boxes only: the prediction does not model daggers of
+        # structural boxes (swaps, cups) INSIDE images
+        sub = img_kit.rand_diagram(rng, rng.randint(0, 2), dom=m.dom, raw=False)
+        sub = sub >> img_kit.box_with_dom(rng, sub.cod, cod=m.cod)
+        usable = True
+        for box in sub.boxes:
+            bb = base_of(box)
+            kb = struct.boxkey(bb)
+            if kb[0] != "Box":
+                continue
+            if kb == struct.boxkey(m):
+                usable = False          # no self-reference
+            elif kb not in ar_keys:
+                fdom, fcod = image_ty(bb.dom), image_ty(bb.cod)
+                ar[bb] = img_kit.box_with_dom(rng, fdom, cod=fcod)
+                ar_keys[kb] = struct.key(ar[bb])
+        if usable:
+            try:
+                ar[m] = mod.Functor(dict(ob_map), dict(ar))(sub)
+                ar_keys[struct.boxkey(m)] = struct.key(ar[m])
+                macros[m] = sub
+                ctx.count("functors_with_a_reentrant_box_map")
+            except Exception:
+                pass
+
+    def ar_callable(f):
+        return F(macros[f]) if f in macros else ar[f]
     if style == "dict":
         functor = mod.Functor(ob_map, ar)
     elif style == "callable":
-        functor = mod.Functor(lambda t: ob_map[t], lambda f: ar[f])
+        functor = mod.Functor(lambda t: ob_map[t], ar_callable)
     else:
         from discopy.cat import Quiver
-        functor = mod.Functor(Quiver(lambda t: ob_map[t]), Quiver(lambda f: ar[f]))
+        functor = mod.Functor(Quiver(lambda t: ob_map[t]), Quiver(ar_callable))
     F = functor
     witness = dict(cls=which, style=style,
                    ob=lambda: {k: safe_repr(v, 80) for k, v in images.items()},
@@ -249,6 +281,47 @@ def run_case(rng, ctx):
         law("sum", F((a + alt) >> b), (Fa >> Fb) + (F(alt) >> Fb))
     if rigid:
         rigid_case(rng, ctx, kit, F, images, image_keys, witness, law)
+    # histories: the SAME functor object after its maps were changed (dicts
+    # updated in place / callables reading them): every call uses the maps
+    # current at that call
+    if not macros and rng.random() < .5:
+        lengths2 = [rng.choice([0, 1, 1, 2, 2, 3]) for _ in names]
+        images2 = {name: img_kit.rand_ty(rng, n) for name, n in zip(names, lengths2)}
+        images.clear()
+        images.update(images2)
+        image_keys.clear()
+        image_keys.update({name: tykey(t) for name, t in images.items()})
+        ob_map.update({mod.Ty(name): t for name, t in images.items()})
+        for base in list(ar):
+            fdom, fcod = image_ty(base.dom), image_ty(base.cod)
+            img = img_kit.rand_diagram(rng, rng.randint(0, 1), dom=fdom, raw=False)
+            img = img >> img_kit.box_with_dom(rng, img.cod, cod=fcod)
+            ar[base] = img
+            ar_keys[struct.boxkey(base)] = struct.key(img)
+        history = "same functor object, maps changed in place"
+        try:
+            Fa2, Fb2 = F(a), F(b)
+        except Exception as err:
+            ctx.fail("predicted-image", exception=type(err).__name__,
+                     message=str(err)[:300], history=history, **witness)
+            Fa2 = None
+        if Fa2 is not None:
+            for d, Fd in ((a, Fa2), (b, Fb2)):
+                ok, why = well_typed(Fd)
+                ctx.expect("image-well-typed", ok, reason=why, history=history,
+                           diagram=lambda: safe_repr(d),
+                           image=lambda: safe_repr(Fd), **witness)
+                law("dom-cod", (Fd.dom, Fd.cod), (F(d.dom), F(d.cod)),
+                    history=history)
+                predicted = predict(d, ob_image, ar_keys)
+                if predicted is not None:
+                    got = struct.key(Fd)
+                    ctx.expect("predicted-image", got == predicted,
+                               history=history, diagram=lambda: safe_repr(d),
+                               got=lambda: repr(got)[:1500],
+                               predicted=lambda: repr(predicted)[:1500], **witness)
+            law("then", F(a >> b), Fa2 >> Fb2, history=history)
+            ctx.count("functors_reconfigured_between_calls")
     if any(n != 1 for n in lengths) and len(a) + len(b) + len(c) >= 3:
         ctx.mark(which + style + repr(lengths) + safe_repr(a, 300) + safe_repr(b, 200))
     if ctx.index < 18:
